@@ -45,7 +45,9 @@ TEXTS = ["note", "a -- b", "---- sec ----", "create table x (y int);", "a, b (c)
 MARKED_TEXTS = ["/* -- x */", "a /* b", "x */ y", "# z", "-- /* x", "a /* b */"]
 WHOLE = {"--": lambda t: ["-- %s" % t], "--nosp": lambda t: ["--%s" % t], "#": lambda t: ["# %s" % t], "b1": lambda t: ["/* %s */" % t],
          "b1nosp": lambda t: ["/*%s*/" % t], "b2": lambda t: ["/* %s" % t, "*/"], "b3": lambda t: ["/*", " %s" % t, "*/"],
-         "b3t": lambda t: ["/* %s" % t, "%s" % t, "%s */" % t], "ind--": lambda t: ["    -- %s" % t], "indb1": lambda t: ["    /* %s */" % t]}
+         "b3t": lambda t: ["/* %s" % t, "%s" % t, "%s */" % t], "ind--": lambda t: ["    -- %s" % t], "indb1": lambda t: ["    /* %s */" % t],
+         # indented block comments over 2 and 3 lines (the middle line of the 3-line form is plain text)
+         "indb2": lambda t: ["    /* %s" % t, "    */"], "indb3": lambda t: ["    /*", "      %s" % t, "    */"]}
 TRAIL = {"t--": lambda t: " -- %s" % t, "t--nosp": lambda t: "--%s" % t, "t/*": lambda t: " /* %s */" % t, "t/*nosp": lambda t: "/*%s*/" % t}
 MARK = re.compile(r"/\*|\*/|--|#")
 
@@ -158,6 +160,8 @@ def features(case):
         t = text_of(ti)
         if ti >= 100:
             f.append("text:other-marker")
+        if st in ("indb2", "indb3"):
+            f.append("block:indented-multi-line")
         if "--" in t and not st.endswith(("--", "--nosp")):
             f.append("text:dashdash-in-non-dash-comment")
         if kind == "trail" and st.startswith("t--") and ("/*" in t or "*/" in t):
